@@ -27,6 +27,7 @@ RunOk(kind, fired, notable) ==
     /\ Len(notable) <= 1
     /\ fired <=> (\E i \in 1..Len(notable) : notable[i].fired)
 
-\* when no component fails, no error is reported
-CleanOk(notable) == notable = <<>>
+\* when no component fails, no error is reported; and a sink that was written to has been
+\* flushed before it is handed back (otherwise a failure of the sink's flush could never surface)
+CleanOk(notable, writes, flushes) == notable = <<>> /\ (writes > 0 => flushes > 0)
 =============================================================================
